@@ -300,7 +300,10 @@ def replay_f8():
 
     import bellows.ezsp.v7 as v7
 
-    ez = ezsp.EZSP.__new__(ezsp.EZSP)
+    try:
+        ez = ezsp.EZSP({})
+    except Exception:
+        ez = ezsp.EZSP.__new__(ezsp.EZSP)
     ez._ezsp_version = 7
     ez._protocol = v7.EZSPv7(MagicMock(), MagicMock())
     ez._ezsp_event = MagicMock()
